@@ -37,14 +37,14 @@ MENUS = [
     ('cont', ['none', 'name', 'every']),
     ('sstyle', ['bare', 'quoted', 'brace', 'brace2']),
     ('arr', ['[]', '<>']),                             # also number format: repr / explicit exponent+sign
-    ('case', ['upper', 'lower', 'declared']),
+    ('case', ['upper', 'lower', 'declared', 'mixed']),
     ('inter', ['grouped', 'alternate', 'reversed']),
     ('chan', ['path', 'text', 'binary']),
     ('raw', [False, True]),
 ]
 QUICK_MENUS = {'eol': ['\n', '\r\n'], 'cmt': ['none', 'all'], 'trail': [False, True], 'blank': ['none', 'double'],
                'sep': ['one', 'runs'], 'cont': ['none', 'every'], 'sstyle': ['bare', 'brace2'], 'arr': ['[]', '<>'],
-               'case': ['upper', 'lower'], 'inter': ['grouped', 'alternate'], 'chan': ['path', 'binary'],
+               'case': ['upper', 'mixed'], 'inter': ['grouped', 'alternate'], 'chan': ['path', 'binary'],
                'raw': [False, True]}
 
 # ------------------------------------------------------------------ documents
@@ -180,7 +180,8 @@ def render(doc, lay):
     per = [[] for _ in doc['structs']]
     for ti, cells in doc['rows']:
         s = doc['structs'][ti]
-        nm = {'upper': s['name'].upper(), 'lower': s['name'].lower(), 'declared': s['name']}[lay['case']]
+        nm = {'upper': s['name'].upper(), 'lower': s['name'].lower(), 'declared': s['name'],
+              'mixed': ''.join(c.lower() if i % 2 == 0 else c.upper() for i, c in enumerate(s['name']))}[lay['case']]
         toks = [nm]
         for (cn, ct), v in zip(s['cols'], cells):
             if _is_arr(ct):
